@@ -711,7 +711,7 @@ theorem serWitness_ok (w : List WitStack) (h : ∀ s ∈ w, WFWitStack s) :
     serWitness w = .ok ((w.map witStack).flatten) := by
   simp [serWitness, mapM_ok serWitStack witStack w (fun s hs => serWitStack_ok s (h s hs))]
 
-theorem hasWitness_iff (t : Tx) : t.hasWitness = !witIsNull t.wit := rfl
+theorem hasWitness_iff (t : Tx) : t.hasWitness = !witIsNull t.wit := Tx.hasWitness_eq_not_witIsNull t
 
 theorem serTx_ok (t : Tx) (h : WFTx t) : serTx t = .ok (txBytes t) := by
   obtain ⟨h1, h2, h3, h4, h5, h6, h7, h8, h9, h10⟩ := h
